@@ -287,9 +287,9 @@ pub fn spec() -> PropertySpec {
         level: "exploration",
         rule: "Each run: 1-3 simulated clients, each sending 1-12 generated requests (no body / small / above-threshold / undeclared length / Expect / malformed) on one connection to the real server (accept loop, token set, connection tasks, blocking-job wrapper) under a seeded scheduler that interleaves task polls, handler start/finish, client sends (whole, byte-wise, random fragments; pipelined or ping-pong) and client reads, with short socket I/O, spurious Pending and small socket buffers. Oracle: per-connection sequential reference model (handler runs, pending flags, body bytes, responses, close point). A run is non-trivial when the handler ran at least twice; distinct = distinct hash of the executed schedule (action kind + participant per step).",
         scenarios: vec![
-            Scenario { name: "c04.cache", property: "C04", func: with_cache, runs_quick: 40_000, runs_thorough: 2_000_000, doc: "cache dir configured" },
-            Scenario { name: "c04.longlived", property: "C04", func: long_lived, runs_quick: 6_000, runs_thorough: 300_000, doc: "12-60 padded pipelined requests on one connection: cumulative bytes pass the 8 KiB connection buffer several times" },
-            Scenario { name: "c04.nocache", property: "C04", func: no_cache, runs_quick: 8_000, runs_thorough: 300_000, doc: "no cache dir: large bodies must be refused with 500" },
+            Scenario { name: "c04.cache", property: "C04", func: with_cache, runs_quick: 250_000, runs_thorough: 8_000_000, doc: "cache dir configured" },
+            Scenario { name: "c04.longlived", property: "C04", func: long_lived, runs_quick: 20_000, runs_thorough: 600_000, doc: "12-60 padded pipelined requests on one connection: cumulative bytes pass the 8 KiB connection buffer several times" },
+            Scenario { name: "c04.nocache", property: "C04", func: no_cache, runs_quick: 40_000, runs_thorough: 1_000_000, doc: "no cache dir: large bodies must be refused with 500" },
         ],
         required_probes: vec!["probe.pending_body_request", "probe.multi_request_run", "net.backpressure", "job.panicked", "probe.more_than_3x_buffer_size_on_one_connection"],
         components: components_server(),
